@@ -3,6 +3,13 @@
 # the evidence next to what the engine measured.
 
 PROPS = {
+    "C02": {
+        "groups": [
+            {"pkg": "server", "tags": "verif,test", "harness": "^verifH_C02_"},
+        ],
+        "bounds": {"devices": 2, "capacity": "<= (2^64-1)/135", "history": "one inductive step from any state satisfying the slot invariant (covers sequences of any length); two-report sequences in both orders"},
+        "outside": ["Capacity above (2^64-1)/135 (Capacity*135 wraps)"],
+    },
     "C01": {
         "groups": [
             {"pkg": "server", "tags": "verif,test", "harness": "^verifH_C01_signed"},
